@@ -257,6 +257,9 @@ func ReadWALValid(b []byte) (frames []WALFrame, pageSize int, ok bool) {
 		if binary.BigEndian.Uint32(h[8:]) != salt1 || binary.BigEndian.Uint32(h[12:]) != salt2 {
 			break
 		}
+		if binary.BigEndian.Uint32(h[0:]) == 0 { // page numbers start at 1 (walDecodeFrame)
+			break
+		}
 		s0, s1 = walChecksum(bo, s0, s1, h[:8])
 		s0, s1 = walChecksum(bo, s0, s1, data)
 		if s0 != binary.BigEndian.Uint32(h[16:]) || s1 != binary.BigEndian.Uint32(h[20:]) {
@@ -447,6 +450,10 @@ type Tx struct {
 	// Spill: pages beyond both the old and the final size that the transaction allocated, that the
 	// page cache spilled to the file, and that were freed again before the commit
 	Spill map[uint32][]byte
+	// NoSync: PRAGMA synchronous=OFF. SQLite (pager.c writeJournalHdr) then writes the journal header with its magic
+	// and a record count of 0xffffffff and never rewrites it; with any other setting the magic and the count are
+	// written as zeros and filled in when the journal is synced, right before the first database write.
+	NoSync bool
 }
 
 var ctx = context.Background()
@@ -473,7 +480,18 @@ func PgTerm(pgno uint32, data []byte) string {
 }
 func (r *Rec) Write(pgno uint32, data []byte) { r.add("OWrite %d %s", pgno, PgTerm(pgno, data)) }
 func (r *Rec) Truncate(n uint32)              { r.add("OTruncate %d", n) }
-func (r *Rec) CommitJournal(commit uint32)    { r.add("OCommitJournal %d", commit) }
+
+// ZeroFill: a page below one written further on that nobody wrote - zeros put there by the file system.
+func (r *Rec) ZeroFill(pgno uint32, data []byte) { r.add("OZeroFill %d %s", pgno, PgTerm(pgno, data)) }
+
+func b2u(b bool) uint32 {
+	if b {
+		return 1
+	}
+	return 0
+}
+func (r *Rec) CommitJournal(commit uint32) { r.add("OCommitJournal %d", commit) }
+func (r *Rec) InvalidateJournal()          { r.add("OInvalidateJournal") }
 
 // CommitJournalFailed: the commit recorded last was attempted and refused (the journal could not be finalised).
 func (r *Rec) CommitJournalFailed() {
@@ -529,6 +547,8 @@ type Pager struct {
 	// BeforeCommit runs immediately before the commit step (journal finalisation / release of the
 	// WAL write lock after a commit frame).
 	BeforeCommit func()
+	// CloseSHM: the next EndWALWrite gives the locks up by closing the -shm descriptor instead of unlocking
+	CloseSHM bool
 }
 
 func (p *Pager) logf(f string, a ...any) { p.Steps = append(p.Steps, fmt.Sprintf(f, a...)) }
@@ -654,8 +674,10 @@ func (p *Pager) RunRollbackTx(prev *Image, tx Tx, jm JournalMode, outcome Rollba
 		nonce := p.Nonce + uint32(si)*0x9e3779b9 // SQLite draws a fresh checksum nonce for every journal header
 		hdrOff := off
 		hdr := make([]byte, sectorSize)
-		copy(hdr, "\xd9\xd5\x05\xf9\x20\xa1\x63\xd7")
-		binary.BigEndian.PutUint32(hdr[8:], 0) // nRec, rewritten at sync
+		if tx.NoSync {
+			copy(hdr, "\xd9\xd5\x05\xf9\x20\xa1\x63\xd7")
+			binary.BigEndian.PutUint32(hdr[8:], 0xffffffff)
+		} // else: magic and nRec are zeros until the journal is synced
 		binary.BigEndian.PutUint32(hdr[12:], nonce)
 		binary.BigEndian.PutUint32(hdr[16:], uint32(len(prev.Pages)))
 		binary.BigEndian.PutUint32(hdr[20:], uint32(sectorSize))
@@ -694,13 +716,17 @@ func (p *Pager) RunRollbackTx(prev *Image, tx Tx, jm JournalMode, outcome Rollba
 				return err
 			}
 		}
-		// sync: rewrite nRec
-		binary.BigEndian.PutUint32(hdr[8:], uint32(len(seg)))
-		if err := db.WriteJournalAt(ctx, jf, hdr[:12], hdrOff, o); err != nil {
-			unlockAll()
-			return err
+		// sync (syncJournal): magic and nRec are written now - unless the transaction is rolled back before any
+		// database write, in which case SQLite never syncs the journal, or synchronous is OFF
+		if !tx.NoSync && outcome != RollbackBeforeWrite {
+			copy(hdr, "\xd9\xd5\x05\xf9\x20\xa1\x63\xd7")
+			binary.BigEndian.PutUint32(hdr[8:], uint32(len(seg)))
+			if err := db.WriteJournalAt(ctx, jf, hdr[:12], hdrOff, o); err != nil {
+				unlockAll()
+				return err
+			}
+			_ = db.SyncJournal(ctx)
 		}
-		_ = db.SyncJournal(ctx)
 		off = (off + int64(sectorSize) - 1) / int64(sectorSize) * int64(sectorSize)
 	}
 	p.logf("journal recs=%v segments=%d sector=%d", recs, len(segs), sectorSize)
@@ -720,7 +746,11 @@ func (p *Pager) RunRollbackTx(prev *Image, tx Tx, jm JournalMode, outcome Rollba
 		// valid journal header LiteFS treats finalisation as a commit of zero pages.
 		// Real SQLite zeroes/deletes the journal the same way, so this is the faithful sequence.
 		p.logf("rollback-before-write")
-		p.Rec.CommitJournal(uint32(len(prev.Pages)))
+		if tx.NoSync {
+			p.Rec.CommitJournal(uint32(len(prev.Pages))) // the header is complete from the start: a valid journal is finalised
+		} else {
+			p.Rec.InvalidateJournal() // the journal was never synced: its header has no magic yet
+		}
 		err := finalize()
 		unlockAll()
 		return err
@@ -757,6 +787,15 @@ func (p *Pager) RunRollbackTx(prev *Image, tx Tx, jm JournalMode, outcome Rollba
 	}
 	SetHeader(p1, ps, tx.NewSize, tx.Wal)
 	writes[1] = p1
+	// SQLite does not write every page of a database that grows: a page allocated and freed again within the
+	// transaction (a free-list leaf, PGHDR_DONT_WRITE) is left out.  When that leaves the file shorter than the
+	// database, the pager writes a page of zeros at the end (pager.c sqlite3PagerCommitPhaseOne -> pager_truncate);
+	// whatever lies between is filled with zeros by the file system and never passes through LiteFS.
+	if last := tx.NewSize - b2u(tx.NewSize == LockPgno(ps)); outcome == Commit && last > uint32(len(prev.Pages)) {
+		if _, ok := writes[last]; !ok {
+			writes[last] = make([]byte, ps)
+		}
+	}
 	maxWritten := uint32(len(prev.Pages))
 	for _, pg := range sortedPgnos(tx.Spill) {
 		if err := db.WriteDatabaseAt(ctx, dbf, tx.Spill[pg], int64(pg-1)*int64(ps), o); err != nil {
@@ -780,6 +819,13 @@ func (p *Pager) RunRollbackTx(prev *Image, tx Tx, jm JournalMode, outcome Rollba
 		}
 		p.Rec.Write(pg, writes[pg])
 	}
+	if outcome == Commit {
+		for pg := uint32(len(prev.Pages)) + 1; pg <= tx.NewSize; pg++ {
+			if _, ok := writes[pg]; !ok {
+				p.Rec.ZeroFill(pg, make([]byte, ps))
+			}
+		}
+	}
 	_ = db.SyncDatabase(ctx)
 	p.LastRecs = recs
 	p.LastGrew = (tx.NewSize > uint32(len(prev.Pages)) || maxWritten > uint32(len(prev.Pages))) && len(prev.Pages) > 0
@@ -797,8 +843,9 @@ func (p *Pager) RunRollbackTx(prev *Image, tx Tx, jm JournalMode, outcome Rollba
 			}
 			p.Rec.Write(pg, prev.Pages[pg-1])
 		}
-		// pages appended by the aborted tx are cut off by SQLite with a truncate to the original size
-		if (tx.NewSize > uint32(len(prev.Pages)) || maxWritten > uint32(len(prev.Pages))) && len(prev.Pages) > 0 {
+		// pages appended by the aborted tx are cut off by SQLite with a truncate to the original size (pager_playback:
+		// also to nothing, when the transaction was the one creating the database)
+		if tx.NewSize > uint32(len(prev.Pages)) || maxWritten > uint32(len(prev.Pages)) {
 			if err := db.TruncateDatabase(ctx, int64(len(prev.Pages))*int64(ps)); err != nil {
 				unlockAll()
 				return fmt.Errorf("rollback truncate: %w", err)
@@ -823,7 +870,7 @@ func (p *Pager) RunRollbackTx(prev *Image, tx Tx, jm JournalMode, outcome Rollba
 				_ = db.WriteDatabaseAt(ctx, dbf, prev.Pages[pg-1], int64(pg-1)*int64(ps), o)
 				p.Rec.Write(pg, prev.Pages[pg-1])
 			}
-			if (tx.NewSize > uint32(len(prev.Pages)) || maxWritten > uint32(len(prev.Pages))) && len(prev.Pages) > 0 {
+			if tx.NewSize > uint32(len(prev.Pages)) || maxWritten > uint32(len(prev.Pages)) {
 				_ = db.TruncateDatabase(ctx, int64(len(prev.Pages))*int64(ps))
 				p.Rec.Truncate(uint32(len(prev.Pages)))
 			}
@@ -922,6 +969,12 @@ func (p *Pager) EndWALWrite() {
 		}
 	}
 	p.pending, p.pendingCommit = nil, 0
+	if p.CloseSHM {
+		// the connection's descriptor of the -shm file is closed with the locks still held (the process exits, or is
+		// killed, right after its commit): every lock of that owner goes at once (fuse SHMHandle.Flush -> DB.UnlockSHM)
+		p.DB.UnlockSHM(ctx, p.Owner)
+		return
+	}
 	_ = p.DB.Unlock(ctx, p.Owner, []litefs.LockType{litefs.LockTypeWrite})
 	_ = p.DB.Unlock(ctx, p.Owner, []litefs.LockType{litefs.LockTypeRead1})
 }
